@@ -84,7 +84,7 @@ def run_property(prop_id, cfg, tier, seed):
         deadline = time.time() + h.get("budget_s", {}).get(tier, 600 if tier == "quick" else 3600)
         pool = mp.Pool(nproc, initializer=ex_mod._init, initargs=(pk, params, tl, h.get("max_steps", 3_000_000), os.path.join(build.BUILD, "qlog")))
         try:
-            ex = ex_mod.explore(pool, h.get("fn", h["name"]), label=h["name"], max_paths=h.get("max_paths", {}).get(tier, 50000), deadline=deadline, seed=seed)
+            ex = ex_mod.explore(pool, h.get("fn", h["name"]), label=h["name"], max_paths=h.get("max_paths", {}).get(tier, 200000 if tier == "quick" else 5000000), deadline=deadline, seed=seed)
         finally:
             pool.terminate(); pool.join()
         rec = {"harness": h["name"], "params": params, "paths": ex.paths, "path_status": ex.status, "mir_steps": ex.steps, "solver_queries": ex.queries,
